@@ -15,7 +15,7 @@ rsync -a --exclude .build --exclude evidence --exclude replays --exclude .git "$
 sed -i "s|/repo/src/lib.rs|$S/repo/src/lib.rs|" "$S/verif/sim/shadow/Cargo.toml"
 export VERIF_REPO="$S/repo"
 # share compiled third-party crates between scratch builds
-export CARGO_TARGET_DIR="$V/.build/mut-target"
+export CARGO_TARGET_DIR="${MUT_TARGET:-$V/.build/mut-target}"
 mkdir -p "$S/verif/.build/sim/release"
 cd "$S/verif/sim" || exit 2
 if ! cargo build --release --offline -q 2>"$S/build.log"; then
